@@ -480,6 +480,8 @@ func execNsec3(f []string) vlib.Res {
 		return execAuthNsec3(f)
 	case "authu":
 		return execAuthUnsigned(f, true)
+	case "ans":
+		return execAnswer(f, true)
 	case "ring":
 		// the genuine ring of the current zone (for building witnesses by hand); oracle-side only
 		return vlib.Res{Impl: recs3Str(curZ3.ring())}
@@ -1019,6 +1021,10 @@ func genNsec3Case(r *vlib.R, emit func(string)) int {
 			if len(ns) == len(gs) {
 				emit(fmt.Sprintf("h wild %s %s %s", genSigner(r, z), ansSigsStr(gs), hashTableFor(ns, z.apex)))
 				cnt++
+				if signableAns(gs) && signable3(set) && r.Chance(2, 3) {
+					emit(fmt.Sprintf("h ans %s %s %s %s", genSigner(r, z), ansSigsStr(gs), ansVariant(r), hashTableFor(ns, z.apex)))
+					cnt++
+				}
 			}
 		}
 	}
